@@ -60,7 +60,6 @@ func TestC35OverreadRequestTrailersServerPanics(t *testing.T) {
 		st.writeVarint(int64(len(section)))
 		st.Write(section)
 		st.Write(c35OverreadTrailer)
-		st.Write([]byte{0x00}) // the byte the over-read eats (start of a would-be next frame)
 		st.Flush()
 		st.stream.stream.CloseWrite()
 		synctest.Wait() // the unchanged tree does not get past this line
@@ -100,12 +99,65 @@ func TestC35OverreadResponseTrailersClientPanics(t *testing.T) {
 		qs := st.stream.stream
 		qs.Write([]byte{0x01, 0x03, 0x00, 0x00, 0xd9}) // HEADERS: :status 200
 		qs.Write(c35OverreadTrailer)
-		qs.Write([]byte{0x00})
 		qs.CloseWrite()
 		synctest.Wait()
 		t.Log(result)
 		if len(result) >= 6 && result[:6] == "panic:" {
 			t.Errorf("Response.Body.Close after over-read response trailers: %s", result)
+		}
+	})
+}
+
+// Server, message head: the over-read happens in parseHeader. The QPACK layer
+// turns the H3_FRAME_ERROR connection error of recordBytesRead into a bare
+// errQPACKDecompressionFailed, so genericConn.handleStreamError takes its
+// default branch, st.stream.CloseRead() - on the nil stream. No handler is
+// involved: the 2-byte request "empty HEADERS frame" (and likewise 01 01 00,
+// 01 03 00 00 ff, ...) kills the process on the unchanged tree.
+func TestC35OverreadRequestHeadServerPanics(t *testing.T) {
+	for _, frame := range [][]byte{
+		{0x01, 0x00},                   // empty field section: the Required Insert Count byte is outside the frame
+		{0x01, 0x01, 0x00},             // Delta Base outside the frame
+		{0x01, 0x03, 0x00, 0x00, 0xff}, // continuation of a field line index outside the frame
+	} {
+		synctest.Test(t, func(t *testing.T) {
+			ts := newTestServer(t, http.HandlerFunc(func(w http.ResponseWriter, r *http.Request) {}))
+			tc := ts.connect()
+			tc.greet()
+			st := tc.newStream(streamTypeRequest)
+			st.Write(frame)
+			st.Flush()
+			synctest.Wait() // the unchanged tree does not get past this line
+			t.Logf("request stream %x: server survived; connection: %v", frame, tc.qconn.Wait(canceledCtx))
+		})
+	}
+}
+
+// Client, message head: RoundTrip's deferred rt.abort takes its default branch
+// for the same reason and dereferences the nil stream on the caller's goroutine.
+func TestC35OverreadResponseHeadClientPanics(t *testing.T) {
+	synctest.Test(t, func(t *testing.T) {
+		tc := newTestClientConn(t)
+		tc.greet()
+		req, _ := http.NewRequest("GET", "https://example.tld/", nil)
+		var result string
+		go func() {
+			defer func() {
+				if r := recover(); r != nil {
+					result = fmt.Sprintf("panic: %v", r)
+				}
+			}()
+			_, err := tc.cc.RoundTrip(req)
+			result = fmt.Sprintf("RoundTrip error %v", err)
+		}()
+		synctest.Wait()
+		qs := tc.streams[streamTypeRequest][0].stream.stream
+		qs.Write([]byte{0x01, 0x00}) // empty HEADERS frame
+		qs.Flush()
+		synctest.Wait()
+		t.Log(result)
+		if len(result) >= 6 && result[:6] == "panic:" {
+			t.Errorf("RoundTrip on a response that starts with an empty HEADERS frame: %s", result)
 		}
 	})
 }
